@@ -13,7 +13,7 @@ for d in sorted(os.listdir('/verif/seeded')):
     def cut(x, n=170):
         x = (x or '').replace('\n', ' ').replace('|', '/')
         return x if len(x) <= n else x[:n-3] + '...'
-    rnd = {'a': 'round 1', 'b': 'round 1', 'c': 'round 2', 'd': 'round 2', 'e': 'round 3', 'f': 'round 3'}.get(d[-1], 'round 4' if d[-1] in 'ghij' else ('round 5' if d[-1] in 'klmn' else ('round 6' if d[-1] in 'op' else ('round 7' if d[-1] in 'qr' else ('round 8' if d[-1] in 'stu' else ('round 10' if d[-1] in 'vwx' else ('round 12' if d[-1] in 'AB' else ('round 13' if d[-1] in 'CDE' else ('round 14' if d[-1] in 'GHIJ' else ('round 15' if d[-1] in 'KLM' else ('round 16' if d[-1] in 'NOP' else ('round 17' if d[-1] in 'QRS' else 'round 11'))))))))))))
+    rnd = {'a': 'round 1', 'b': 'round 1', 'c': 'round 2', 'd': 'round 2', 'e': 'round 3', 'f': 'round 3'}.get(d[-1], 'round 4' if d[-1] in 'ghij' else ('round 5' if d[-1] in 'klmn' else ('round 6' if d[-1] in 'op' else ('round 7' if d[-1] in 'qr' else ('round 8' if d[-1] in 'stu' else ('round 10' if d[-1] in 'vwx' else ('round 12' if d[-1] in 'AB' else ('round 13' if d[-1] in 'CDE' else ('round 14' if d[-1] in 'GHIJ' else ('round 15' if d[-1] in 'KLM' else ('round 16' if d[-1] in 'NOP' else ('round 17' if d[-1] in 'QRS' else ('round 18' if d[-1] in 'T' else 'round 11')))))))))))))
     if d == 'C03i':
         rnd = 'round 11'
     if d in ('C03j', 'C07i', 'C09i'):
